@@ -14,7 +14,8 @@ loader = importlib.machinery.SourceFileLoader("vcheck", os.path.join(os.getcwd()
 spec = importlib.util.spec_from_loader("vcheck", loader)
 m = importlib.util.module_from_spec(spec); loader.exec_module(m)
 m.build("explore")
-if os.path.isdir("harness/seqx"):
-    m.build("seqx")
+for k, v in m.CHECKS.items():
+    if v["kind"] == "seqx":
+        m.build("seqx", v["pkg"])
 print("setup ok")
 PY
